@@ -179,9 +179,54 @@ pub fn roundtrip(lm: &LMsg, key: Option<&Keyed>, rep: &mut Report) -> Option<Vec
             }
         }
     }
+    // 7. the other encoder configurations (quick tier: one per message, chosen by a hash of the bytes; thorough: all):
+    //    a reused encoder object and a default context give the same bytes; custom / random padding gives the same size
+    //    and a message that decodes (and validates) to the same content
+    let pick = (crate::util::hash64(&enc) % 4) as usize;
+    for variant in 0..4 {
+        if !ALL_ENCODER_VARIANTS.load(std::sync::atomic::Ordering::Relaxed) && variant != pick {
+            continue;
+        }
+        let name = cu::ENCODER_VARIANTS[variant];
+        let alt = match cu::encode_variant(&msg, reference.len() + 64, 0x3C, variant) {
+            Ok(Ok((n, b))) if n <= b.len() => b[..n].to_vec(),
+            other => {
+                rep.violate(format!("encoder-configuration/{}/fails", name), format!("{:?}", other.map(|r| r.map(|x| x.0))), replay());
+                return None;
+            }
+        };
+        if variant < 2 {
+            if alt != enc {
+                rep.violate(format!("encoder-configuration/{}/bytes-differ", name), format!("{} vs {}", hex(&alt[..alt.len().min(64)]), hex(&enc[..enc.len().min(64)])), replay());
+                return None;
+            }
+            continue;
+        }
+        if alt.len() != enc.len() {
+            rep.violate(format!("encoder-configuration/{}/size-differs", name), format!("{} vs {}", alt.len(), enc.len()), replay());
+            return None;
+        }
+        let o = Opts { ctx: true, key: true, validation: true, unknown_data: false, not_ignore: false };
+        let vdec = cu::decoder(o, key.map(|k| k.subject));
+        let want: Vec<L> = lm.attrs.iter().map(menu::expected_decoded).collect();
+        match cu::decode_with(&vdec, &alt) {
+            Ok(Ok((d, _))) if d.attrs == want && d.size == alt.len() && d.method == lm.method && d.class == lm.class && d.tid == lm.tid => {}
+            other => {
+                rep.violate(
+                    format!("encoder-configuration/{}/decodes-differently", name),
+                    format!("{:?}", other.map(|r| r.map(|x| x.0.attrs.len()))),
+                    replay(),
+                );
+                return None;
+            }
+        }
+    }
     rep.nontrivial_by_construction();
     Some(enc)
 }
+
+/// thorough tier: every message under all four extra encoder configurations
+pub static ALL_ENCODER_VARIANTS: std::sync::atomic::AtomicBool = std::sync::atomic::AtomicBool::new(false);
 
 fn tail_key(tail: &[L]) -> bool {
     tail.iter().any(|a| matches!(a, L::Mi | L::Sha))
@@ -189,6 +234,7 @@ fn tail_key(tail: &[L]) -> bool {
 
 pub fn run(ctx: &RunCtx) -> i32 {
     let thorough = ctx.thorough();
+    ALL_ENCODER_VARIANTS.store(thorough, std::sync::atomic::Ordering::Relaxed);
     let full = menu::body_menu(true);
     let reduced = menu::body_menu(false);
     let spec = KeySpec::Short("VOkJxbRl1RmTxUk/WvJxBt");
@@ -438,7 +484,7 @@ pub fn run(ctx: &RunCtx) -> i32 {
         Finish {
             level: "exploration",
             rule: format!(
-                "every message with 0..=2 body attributes over the {}-entry value menu in every order x 8 tails, every triple over the {}-entry menu x 2 tails, every header of the header menu on singles, full scalar sweeps (u16 fields, error codes 300..=699, 128x512 ICMP, string lengths 0..=509, blob lengths 0..=1024, all 16384 message types, XOR under 123 ids; as non-last and as last attribute: every blob length 0..=1030, every string length, a walking byte through every address byte of all 7 address attributes, every single-bit integer value and its complement, lists of every length 0..=8); deep messages without and with the full tail (every reduced-menu value at body offsets around 256 / 1024 / 4096 (thorough: 256..32768 in powers of two) behind one long filler and behind a run of 8-byte attributes, 3..=257 (thorough 1000) copies of 10 attributes, every rotation and reversal of one-value-per-kind, every 4-sequence over 9 kinds); the offset family (PRIORITY, and SOFTWARE + XOR-MAPPED-ADDRESS, behind a filler - one DATA blob or a run of 512-byte SOFTWARE attributes - at every 4-aligned body offset 0..=4200 (thorough 16,400), around every multiple of 4096 (thorough 1024) and at every offset 65,300..=65,532, without and with the full tail, bodies up to the 65,532-byte maximum); XOR-* addresses whose wire form is ::, ::1, ::ffff:a.b.c.d or all ones under 3 ids; a case is non-trivial when it was built, encoded, decoded and compared equal (index tuples are distinct by construction)",
+                "every message with 0..=2 body attributes over the {}-entry value menu in every order x 8 tails, every triple over the {}-entry menu x 2 tails, every header of the header menu on singles, full scalar sweeps (u16 fields, error codes 300..=699, 128x512 ICMP, string lengths 0..=509, blob lengths 0..=1024, all 16384 message types, XOR under 123 ids; as non-last and as last attribute: every blob length 0..=1030, every string length, a walking byte through every address byte of all 7 address attributes, every single-bit integer value and its complement, lists of every length 0..=8); deep messages without and with the full tail (every reduced-menu value at body offsets around 256 / 1024 / 4096 (thorough: 256..32768 in powers of two) behind one long filler and behind a run of 8-byte attributes, 3..=257 (thorough 1000) copies of 10 attributes, every rotation and reversal of one-value-per-kind, every 4-sequence over 9 kinds); the offset family (PRIORITY, and SOFTWARE + XOR-MAPPED-ADDRESS, behind a filler - one DATA blob or a run of 512-byte SOFTWARE attributes - at every 4-aligned body offset 0..=4200 (thorough 16,400), around every multiple of 4096 (thorough 1024) and at every offset 65,300..=65,532, without and with the full tail, bodies up to the 65,532-byte maximum); XOR-* addresses whose wire form is ::, ::1, ::ffff:a.b.c.d or all ones under 3 ids; every message is additionally encoded under another encoder configuration (one encoder object reused for all messages / default context: same bytes; custom padding 0xA5 / random padding: same size, decodes and validates to the same content; quick tier one configuration per message chosen by a hash of its bytes, thorough all four); a case is non-trivial when it was built, encoded, decoded and compared equal (index tuples are distinct by construction)",
                 n_full, n_tri
             ),
             assumptions: vec![
